@@ -260,6 +260,25 @@ class _Capture:
         if isinstance(f, BoundFunc) and f.fi.name == "nfa_to_dfa" and args and isinstance(args[0], Sym) and "source_expr" in args[0].fields:
             return Sym("dfa-of-expression", source_expr=args[0].fields["source_expr"])
         if isinstance(f, BoundFunc) and f.fi.name in ("find_all", "starts_with", "match") and f.fi.module.name.endswith("gsm.matcher"):
+            # a language that reaches the matcher without get_headers (a finder object of its own): the expression searched for
+            # over the whole token list is a header pattern; one stand-in match is handed back so that the follow-up test, if
+            # there is one, shows its expression too (it is answered "not followed": no header is built from the stand-in)
+            ps = f.fi.params()
+            bound = dict(zip(ps, args))
+            bound.update(kwargs)
+            expr = bound.get("expression", args[0] if args else None)
+            seq = bound.get("sequence", args[1] if len(args) > 1 else None)
+            if f.fi.name == "find_all":
+                self.calls.append([seq, expr, None, node, cur])
+                pc = self.prj.classes.get("codelimit.common.gsm.Pattern:Pattern")
+                from .absint import make_token
+                name_tok = make_token(it, self.prj, "Name", "stand_in", 1, 1)
+                self._standin = Sym("stand-in match", _cls=pc, start=0, end=0, tokens=[name_tok], state=None, automata=None, predicate_map={})
+                return [self._standin]
+            if f.fi.name == "starts_with" and self.calls and isinstance(self.calls[-1], list) and self.calls[-1][2] is None:
+                self.calls[-1][2] = expr
+                self.calls[-1][0] = self.calls[-1][0]
+                return None
             raise AnalysisError(f"{cur.site(node) if cur and node is not None else f.fi.disp}: extract_headers uses the matcher "
                                 f"directly; only patterns handed to get_headers(...) are modelled")
         if isinstance(f, tuple) and f and f[0] == "class" and (f[1].is_subclass_of(self.operator_base) or f[1].is_subclass_of(self.predicate_base)):
